@@ -131,6 +131,17 @@ CHECKS = {
         ),
         design_ref="DESIGN.md §4 C02",
     ),
+    "C13": dict(
+        technique="Lean 4 proof (totality of every model loop; iteration-count bounds and fuel-independence theorems) + malformed-input sweep of the real tool under RLIMIT_CPU/RLIMIT_AS, tied to the model on outcome and results",
+        text=(
+            "PARTIAL BY NATURE: CPU seconds and resident memory of CPython are not expressible in the model. Machine-checked, for all inputs: every loop of the model is a total Lean function (structural or with a proved measure: C13_akai_walk_measure; no `partial`), "
+            "C13_get_path (<= size sectors or a reported error on any table), C13_partition_count (partitions x 8192 <= file size) and C13_partition_fuel (the model's fuel never cuts the scan short), C13_file_table (<= len/24 entries), C13_cue_tracks / C13_cue_fuel, "
+            "C13_roland_volumes / _perf_scan / _chain (<= count, 512, 65536), C13_window_bound (audio <= content). "
+            "Tie + oracle: random bytes (bare / behind AKAI or Roland signatures / sparse 2.9 MB / as cue body) and generated AKAI, Roland, CDDA images with 1-3 targeted corruptions (SAT/FAT specials, in-range links, 2-cycles, self loops, long cycles outside any file, noise; sizes, counts, pointer lists, headers; kilobyte-long cue titles and lines, thousands of tracks, huge numbers) run ls (3 levels) + export in a forked child with RLIMIT_CPU = 10 s + 20 s/MiB and RLIMIT_AS growth = 256 MiB + 32 x size; "
+            "AKAI/Roland/random inputs are also run through the Lean model and must agree on outcome class and results. Found and fixed: cubic regex in make_export_name (6bd604a); re-finds D7 (Roland FAT cycle) when the guard is removed."
+        ),
+        design_ref="DESIGN.md §4 C13",
+    ),
     "C14": dict(
         technique="Lean 4 proof (replacing one 24-byte table entry leaves every other entry's parse unchanged) + byte-sweep damage correspondence",
         text=(
